@@ -143,6 +143,33 @@ Theorem C16_policies_stateless : forall chain n ms,
     - exact (proj1 (messages_no_sharing rule subn lower date_of mid_of recv_of chain ms n)).
   Qed.
 
+  (* configuration changes between messages (Forward.add_mapping on a policy in
+     service, ...): a sequence of messages each with the chain as configured at its
+     moment - Forward's rule list is whatever has been added so far.  Every message
+     comes out as a NEW chain with exactly that configuration gives it alone (no
+     rule list, compiled or otherwise, remembered from an earlier moment), its
+     recipients are the originals rewritten by ITS rule sets, and no objects are
+     shared; C16_policies_stateless is the case of an unchanging configuration *)
+Theorem C16_configuration_snapshot : forall n cms,
+    (forall d e, date_of (shift_env d e) = date_of e) ->
+    (forall d e, mid_of (shift_env d e) = mid_of e) ->
+    (forall d e, recv_of (shift_env d e) = recv_of e) ->
+    let ss := run_configured rule subn lower date_of mid_of recv_of n cms in
+    map outcome ss = map (fun cm => outcome (run (fst cm) 4 (mk_input 0 (snd cm)))) cms
+    /\ Forall2 (fun cm s => failed s = false
+                  /\ Permutation (flat_map rcpts (results s)) (map (rw_chain rule subn (fst cm)) (m_rcpts (snd cm)))
+                  /\ Forall (fun x => sender x = m_sender (snd cm) /\ body x = m_body (snd cm)) (results s)) cms ss
+    /\ NoDup (flat_map ids (flat_map results ss))
+    /\ forall chain ms, run_messages rule subn lower date_of mid_of recv_of chain n ms
+                        = run_configured rule subn lower date_of mid_of recv_of n (map (fun m => (chain, m)) ms).
+  Proof.
+    intros n cms Hd Hm Hr ss. split; [|split; [|split]].
+    - exact (stateless_configured rule subn lower date_of mid_of recv_of Hd Hm Hr cms n).
+    - exact (configured_conservation rule subn lower date_of mid_of recv_of cms n).
+    - exact (proj1 (configured_no_sharing rule subn lower date_of mid_of recv_of cms n)).
+    - intros chain ms. exact (messages_as_configured rule subn lower date_of mid_of recv_of chain ms n).
+  Qed.
+
   (* policies returning their input among their outputs: returning [envelope]
      changes nothing; PKeepSplit really returns the input object (all theorems
      above cover chains with these policies) *)
@@ -168,4 +195,5 @@ Print Assumptions C16_present_header_suppresses.
 Print Assumptions C16_date_mid_kept_when_present.
 Print Assumptions C16_date_mid_added_once_when_absent.
 Print Assumptions C16_policies_stateless.
+Print Assumptions C16_configuration_snapshot.
 Print Assumptions C16_input_among_outputs.
